@@ -1203,11 +1203,13 @@ func TestVerifC11SmallLimit(t *testing.T) {
 	c11RunSearch(cfg)
 }
 
-// samehash: conflicting votes for one block hash with two part-set headers, reported by consensus in both orders, through the lifecycle.
+// samehash: conflicting votes for one block hash with two part-set headers, reported by consensus in both orders, through the lifecycle;
+// and a validator that equivocates twice in one height (rounds 0 and 1, same vote type): both conflicts are reported before the height
+// is decided, in every order and multiplicity the depth allows, and each must become pending evidence of its own.
 func TestVerifC11SameHash(t *testing.T) {
 	c11WithSameHash = true
 	cfg := c11Config{part: "samehash", roots: []int64{5, 8}, maxDepth: 4, quickBudget: 60 * time.Second, thoroughBudget: 10 * time.Minute,
-		only: []string{"dv5/genuine-same-hash", "dv6/genuine-same-hash", "dv8/genuine-same-hash", "dv6/genuine"}}
+		only: []string{"dv5/genuine-same-hash", "dv6/genuine-same-hash", "dv8/genuine-same-hash", "dv6/genuine", "dv6/genuine-round1"}}
 	if vr.Thorough() {
 		cfg.maxDepth = 6
 	}
